@@ -19,23 +19,45 @@ def lib():
     return HighJumpCompetition, RuleViolation
 
 
-def cm(h):
-    return int(Decimal(h) * 100)
-
-
 def dec(cmv):
     return (Decimal(int(cmv)) / Decimal(100)).quantize(Decimal('0.01'))
 
 
+def cm(h):
+    return int((Decimal(str(h)) * 100).to_integral_value())
+
+
+_MISSING = object()
+
+
+def _internal(jp, name, default, conv):
+    """A bookkeeping attribute of Jumper the mechanism model mirrors (not an observable of any property).  A refactoring
+    may rename or drop it: the snapshot then carries `default`, which shows up as model drift, never as a violation or a
+    harness failure."""
+    v = getattr(jp, name, _MISSING)
+    if v is _MISSING:
+        return default
+    try:
+        return conv(v)
+    except Exception:
+        return default
+
+
 def snapshot(c):
     j = {}
+    try:
+        out = {id(x) for x in c.eliminated}            # public view: the eliminated athletes
+    except Exception:
+        out = None
     for jp in c.jumpers:
         pub = jp.place
         j[str(jp.bib)] = {
             'card': [list(a) for a in jp.attempts_by_height],
-            'best': cm(jp.highest_cleared), 'bidx': jp.highest_cleared_index + 1,
-            'elim': bool(jp.eliminated), 'dism': bool(jp.dismissed), 'lim': int(jp.round_lim),
-            'cf': int(jp.consecutive_failures), 'p': int(jp._place),
+            'best': cm(jp.highest_cleared),
+            'bidx': _internal(jp, 'highest_cleared_index', -2, int) + 1,
+            'elim': (id(jp) in out) if out is not None else _internal(jp, 'eliminated', False, bool),
+            'dism': _internal(jp, 'dismissed', False, bool), 'lim': _internal(jp, 'round_lim', -1, int),
+            'cf': _internal(jp, 'consecutive_failures', -1, int), 'p': _internal(jp, '_place', -1, int),
             'pub': 0 if pub == '' else int(pub),
         }
     log = []
@@ -47,8 +69,12 @@ def snapshot(c):
             log.append({'op': 'bar', 'b': '', 'h': cm(v)})
         else:
             log.append({'op': op, 'b': str(v), 'h': 0})
+    try:
+        ranked = [str(x.bib) for x in c.ranked_jumpers]
+    except Exception:
+        ranked = []
     return {'state': c.state, 'heights': [cm(h) for h in c.heights], 'bar': cm(c.bar_height),
-            'order': [str(x.bib) for x in c.jumpers], 'ranked': [str(x.bib) for x in c.ranked_jumpers],
+            'order': [str(x.bib) for x in c.jumpers], 'ranked': ranked,
             'j': j, 'log': log}
 
 
